@@ -293,6 +293,49 @@ func (c *Ctx) ruleLockset(rule string, targets map[*types.Named]string) {
 				}
 			}
 		}
+		// With several mutexes in one struct, an access can sit under two of them (a turn-taking mutex around a
+		// critical section of the state mutex). The field belongs to the mutex that covers more: if every access made
+		// under this mutex is also made under another one, which covers further accesses besides, that one guards it.
+		dominated := map[string]bool{}
+		if ms := allMutexFields(target); len(ms) > 1 {
+			mine := map[string]map[ssa.Instruction]bool{}
+			for _, a := range accs {
+				if a.locked && !a.constr {
+					if mine[a.field] == nil {
+						mine[a.field] = map[ssa.Instruction]bool{}
+					}
+					mine[a.field][a.in] = true
+				}
+			}
+			for _, m := range ms {
+				if m == mutex {
+					continue
+				}
+				theirs := map[string]map[ssa.Instruction]bool{}
+				for _, a := range c.collectAccesses(target, m) {
+					if a.locked && !a.constr {
+						if theirs[a.field] == nil {
+							theirs[a.field] = map[ssa.Instruction]bool{}
+						}
+						theirs[a.field][a.in] = true
+					}
+				}
+				for f, set := range mine {
+					if len(theirs[f]) <= len(set) {
+						continue
+					}
+					subset := true
+					for in := range set {
+						if !theirs[f][in] {
+							subset = false
+						}
+					}
+					if subset {
+						dominated[f] = true
+					}
+				}
+			}
+		}
 		type info struct{ underLock, mutable bool }
 		fields := map[string]*info{}
 		for _, a := range accs {
@@ -302,7 +345,7 @@ func (c *Ctx) ruleLockset(rule string, targets map[*types.Named]string) {
 			if a.constr {
 				continue
 			}
-			if a.locked || required[a.field] {
+			if (a.locked && !dominated[a.field]) || required[a.field] {
 				fields[a.field].underLock = true
 			}
 			if a.write || a.mutates {
